@@ -85,7 +85,7 @@ RULE = (
     "failing steps) x scripts (every call consumed; request pads and exchange inputs small or above max_request_bytes) x "
     "configurations {no storage, threshold 0, threshold = a batch size -1/0/+1, threshold never} x {none, zstd, gzip} x "
     "{pipe, http, http with max_response_bytes, http + upload-URL flow}; corruption = (upload index, one of flip / truncate / "
-    "substitute / forged_logs / nested_pointer / extra_batch / zero_batches / schema_change / drop_encoding / wrong_encoding / "
+    "substitute / forged_logs / nested_pointer / extra_batch / zero_batches / schema_change / nullability_flip / field_metadata / drop_encoding / wrong_encoding / "
     "empty / recompress / none) x {digest on pointer, no digest}; K-resolve objects as described in the module docstring. A case "
     "is non-trivial when something was offloaded or a stored object was read; distinct by canonical JSON"
 )
@@ -503,7 +503,11 @@ def wbatch_json(b: pa.RecordBatch, cm: dict[bytes, bytes] | None) -> dict[str, A
     return out
 
 
-SCHEMAS = [pa.schema([("x", pa.int64())]), pa.schema([("x", pa.int32())]), pa.schema([("y", pa.int64())])]
+# 0: the declared schema; 1: other type; 2: other name; 3: differs ONLY in field nullability; 4: differs only in field-level
+# metadata (equal to 0 under Arrow's schema equality, which is what "the schema differs" means here: names, types, nullability,
+# order — `schema_tag` maps it to 0)
+SCHEMAS = [pa.schema([("x", pa.int64())]), pa.schema([("x", pa.int32())]), pa.schema([("y", pa.int64())]),
+           pa.schema([pa.field("x", pa.int64(), nullable=False)]), pa.schema([pa.field("x", pa.int64(), metadata={"unit": "rows"})])]
 
 
 def schema_tag(s: pa.Schema) -> int:
@@ -608,7 +612,7 @@ def gen_object(rng: Any) -> dict[str, Any]:
         batches = pre + [{"rows": rng.choice([1, 3, 0]), "v": rng.randrange(100), "cm": rng.choice([None, {"k": "v"}])}] + post
     else:
         batches = [gen_obj_batch(rng, k) for k in range(rng.choice([0, 1, 2, 3, 4]))]
-    return {"schema": rng.choice([0, 0, 0, 1, 2]), "batches": batches,
+    return {"schema": rng.choice([0, 0, 0, 0, 1, 2, 3, 3, 4]), "batches": batches,
             "damage": rng.choice(["none"] * 6 + ["truncate", "truncate", "garbage", "empty", "missing"]),
             "cut": rng.random(), "encoding": rng.choice([None, None, "zstd", "gzip"]),
             "enc_fault": rng.choice(["none"] * 8 + ["drop", "bogus_on_raw", "corrupt_compressed"])}
@@ -746,14 +750,14 @@ def gen_resolve_case(rng: Any) -> dict[str, Any]:
         objs[-1]["damage"] = "none"
         objs[-1]["enc_fault"] = "none"
     sha = rng.choice([None, "wrong", "right:0", "right:0", f"right:{n - 1}", f"right:{n - 1}"])
-    return {"kind": "resolve", "objects": objs, "exp_schema": rng.choice([0, 0, 0, 0, 1, 2]), "sha": sha,
+    return {"kind": "resolve", "objects": objs, "exp_schema": rng.choice([0, 0, 0, 0, 0, 1, 2, 3]), "sha": sha,
             "max_retries": rng.choice([0, 1, 2, 2, 5, -1])}
 
 
 # ================================================================================================ corruption (O-integrity, K-stream under faults)
 
 FORGED_ID = 66600
-CORRUPTIONS = ["flip", "flip", "truncate", "substitute", "forged_logs", "nested_pointer", "extra_batch", "zero_batches",
+CORRUPTIONS = ["nullability_flip", "nullability_flip", "field_metadata", "flip", "flip", "truncate", "substitute", "forged_logs", "nested_pointer", "extra_batch", "zero_batches",
                "schema_change", "drop_encoding", "wrong_encoding", "empty", "recompress", "none"]
 
 
@@ -821,6 +825,28 @@ def corrupt(data: bytes, enc: str | None, spec: dict[str, Any]) -> tuple[bytes, 
         for b, cm in bl:
             nb.append((pa.RecordBatch.from_arrays(list(b.columns) if len(sch) else [pa.array([0] * b.num_rows, type=pa.int64())], schema=new_sch), cm))
         sch, bl = new_sch, nb
+    elif kind in ("nullability_flip", "field_metadata") and len(sch):
+        # the object keeps names, types, order, data and metadata of every batch; only one field's nullable flag
+        # (or its field-level metadata) changes
+        k = spec.get("bit", 0) % len(sch)
+        fields = list(sch)
+        f = fields[k]
+        if kind == "nullability_flip":
+            cols_ok = all(b.column(k).null_count == 0 for b, _cm in bl)
+            fields[k] = pa.field(f.name, f.type, nullable=(not f.nullable) if (f.nullable and cols_ok) or not f.nullable else f.nullable)
+            if fields[k].nullable == f.nullable:      # the column holds nulls: flip another field, else fall back to a rename
+                alt = next((j for j, g in enumerate(fields) if j != k and all(b.column(j).null_count == 0 for b, _cm in bl)), None)
+                if alt is None:
+                    fields[k] = pa.field("renamed_" + f.name, f.type)
+                else:
+                    fields[alt] = pa.field(fields[alt].name, fields[alt].type, nullable=not fields[alt].nullable)
+        else:
+            fields[k] = pa.field(f.name, f.type, nullable=f.nullable, metadata={b"forged": b"field-metadata"})
+        new_sch = pa.schema(fields, metadata=sch.metadata)
+        bl = [(pa.RecordBatch.from_arrays(list(b.columns), schema=new_sch), cm) for b, cm in bl]
+        sch = new_sch
+    elif kind in ("nullability_flip", "field_metadata"):
+        return corrupt(data, enc, {**spec, "op": "schema_change"})
     else:
         raise ValueError(kind)
     _ = is_req
@@ -1018,6 +1044,8 @@ def corpus_configs(producer_only: bool) -> list[ExtCfg]:
 
 
 CORPUS_CORRUPTIONS = [
+    {"op": "nullability_flip", "index": 1, "pos": 0.5, "bit": 0}, {"op": "nullability_flip", "index": 2, "pos": 0.5, "bit": 0},
+    {"op": "field_metadata", "index": 1, "pos": 0.5, "bit": 0},
     {"op": "extra_batch", "index": 1, "pos": 0.5, "bit": 0}, {"op": "forged_logs", "index": 1, "pos": 0.5, "bit": 1},
     {"op": "nested_pointer", "index": 1, "pos": 0.5, "bit": 5}, {"op": "zero_batches", "index": 2, "pos": 0.5, "bit": 0},
     {"op": "schema_change", "index": 1, "pos": 0.5, "bit": 0}, {"op": "truncate", "index": 1, "pos": 0.8, "bit": 0},
